@@ -228,6 +228,7 @@ impl InitSuite {
                 v.extend_from_slice(&t[4..]);
                 self.step(&v)
             }
+            "iexpect" => Some("ok".to_string()),
             "iinit" | "ideliver" | "itick" | "isend" => {
                 self.cur_att = if t[0] == "ideliver" { t.get(2)?.to_string() } else { t.get(1)?.to_string() };
                 let (res, att) = match t[0] {
